@@ -353,11 +353,33 @@ def tmpl_stack0_data(rng, nan_share=0.2, area_share=0.25):
     if rng.random() < area_share:
         # own values go straight onto the selected stack 0, then commands whose `?`/`!` areas may pop more of them than
         # there are: the exact point where own values end and real input starts is inside one area evaluation
+        if rng.random() < 0.35:
+            # a negate / reciprocal command takes ALL own values of stack 0 (zeroes at the bottom: their reciprocal is NaN, and
+            # NaN put back onto the emptied stack is refused), then its area pops more than what survived
+            k = rng.randint(2, 4)
+            vals = [0] * rng.randint(1, k - 1)
+            vals += [rng.choice([1, 2, 2, 5, 0]) for _ in range(k - len(vals))]
+            prog = []
+            for v in vals[:-1]:
+                prog += [(0, 1, v, None), (1, 1, 0, None)]                    # bottom values first
+            prog += [(0, 1, vals[-1], None), (5, 1, 0, None)]                 # the last one is copied over while selecting stack 0
+            h = k + rng.choice([0, 0, 0, -1, 1])
+            area = build_area([[None if rng.random() < 0.6 else rng.choice([4, 5, 13]) for _ in range(rng.randint(1, 3))]
+                               for _ in range(rng.randint(1, 3))])
+            if area is None or isinstance(area, int):
+                area = ('!', None, ('!', None, None))
+            prog.append((rng.choice([4, 4, 4, 3]), max(1, h), rng.choice([3, 3, 4, 0]), area))
+            prog += [(1, 1, 1, None)] * rng.randint(0, 3)
+            return prog
         own = rng.randint(1, 4)
         prog = [(0, 1, rng.choice([0, 1, 2, 9]), None), (1, 1, 0, None)] * own + [(5, 1, 0, None)]
         for _ in range(rng.randint(2, 6)):
-            prog += [(0, 1, rng.choice([0, 1, 2, 9]), None) for _ in range(rng.randint(0, 3))]
-            prog.append((rng.choice([0, 1, 1, 3, 4]), rng.choice([1, 1, 2, 3]), rng.choice([1, 3, 3, 0]),
+            npush = rng.randint(0, 3)
+            prog += [(0, 1, rng.choice([0, 0, 1, 2, 9]), None) for _ in range(npush)]
+            # often exactly as many operands as values just pushed (the command empties its own supply; whatever its area
+            # pops next comes from older values, a put-back - or real input)
+            h = npush if (npush and rng.random() < 0.5) else rng.choice([1, 1, 2, 3])
+            prog.append((rng.choice([0, 1, 1, 3, 4, 4]), h, rng.choice([1, 3, 3, 0]),
                          rand_area(rng, [4, 5, 13], p_none=0.0, p_more_q=0.6, p_more_b=0.6, p_slot_none=0.4, maxq=3, maxb=3)))
         prog += [(1, 1, 1, None)] * rng.randint(0, 3)
         return prog
@@ -467,8 +489,8 @@ def tmpl_fractions(rng):
 HOSTILE_SEQS = ['\r\n', 'A\r\nB\r\n', '\n\n', '\r\r\n', ' \n ', '\t\n', '{}', '{{', '\\n', '"\\', "'\"", '%s%d', '\u2028\n', '\n\r']
 
 
-def tmpl_hostile_output(rng, allow_unencodable=True):
-    if rng.random() < 0.25:
+def tmpl_hostile_output(rng, allow_unencodable=True, banner_share=0.25):
+    if rng.random() < banner_share:
         # a BANNER: several lines (100-700 bytes) with one kind of line break (CR LF, LF, CR, LF CR), with or without a final
         # break, written before anything is read - long pre-computed text is where emitters start to split, wrap or re-flow
         sep = rng.choice(['\r\n', '\r\n', '\n', '\r', '\n\r', '\r\r\n'])
